@@ -95,7 +95,11 @@ NLARGS_ATOMS = ['\\flag', '\\flag*', '\\ttl{H}', '\\ttl{H}\\label{a}', '\\ttl', 
                 '\\emb^a', '\\emb_b^c', ' x', 'y', ' ', '{', '}', '$', '\\begin{envf}', '\\begin{envf}+', '\\end{envf}',
                 '\\alpha', '\n\n', '%c\n', '\\label{z}', '\\unk',
                 '\\chg{a\\b$%c\n}', '\\chg{a{b}c}', '\\chg', '\\chg x', '\\csl{a,b}', '\\csl{a, {b,c} ,,d}', '\\csl{}',
-                '\\csl{a%c\n,b}', '\\csl', '\\anyd(a)', '\\anyd<a{)}>', '\\anyd[x]', '\\anyd', ',']
+                '\\csl{a%c\n,b}', '\\csl', '\\anyd(a)', '\\anyd<a{)}>', '\\anyd[x]', '\\anyd', ',',
+                # embellishment arguments of every form, with and without blanks after the marker
+                '\\emb^ \\alpha', '\\emb_ ~', '\\emb^ x', '\\emb^ {x}', '\\emb_%c\n y', '\\emb^\\alpha_ \\alpha',
+                # a macro declared through a pylatexenc-2 arguments parser object
+                '\\lgc', '\\lgc*', '\\lgc[a]{b}', '\\lgc*{b}', '\\lgc *', '\\lgd{a}', '\\lgd{a}*', '\\lgd']
 
 
 def nlargs_strings(rng, count):
@@ -109,7 +113,7 @@ def nlargs_context():
     field macros, full-node-list expression, embellishments): such arguments are LatexNodeList objects,
     possibly empty, inside ParsedArguments.argnlist."""
     if not _NLARGS:
-        from pylatexenc.macrospec import LatexContextDb, MacroSpec, EnvironmentSpec
+        from pylatexenc.macrospec import LatexContextDb, MacroSpec, EnvironmentSpec, MacroStandardArgsParser
         from pylatexenc.latexnodes import LatexArgumentSpec
         from pylatexenc.latexnodes import parsers as P
         db = LatexContextDb()
@@ -124,6 +128,8 @@ def nlargs_context():
             MacroSpec('chg', [LatexArgumentSpec(P.LatexCharsGroupParser())]),
             MacroSpec('csl', [LatexArgumentSpec(P.LatexCharsCommaSeparatedListParser())]),
             MacroSpec('anyd', [LatexArgumentSpec('AnyDelimitedOptional')]),
+            MacroSpec('lgc', args_parser=MacroStandardArgsParser('*[{')),
+            MacroSpec('lgd', args_parser=MacroStandardArgsParser('{*')),
         ], environments=[EnvironmentSpec('envf', [LatexArgumentSpec(P.LatexOptionalCharsMarkerParser(
             ['+'], return_full_node_list=True, return_none_instead_of_empty=False))])])
         db.set_unknown_macro_spec(MacroSpec(''))
